@@ -13,7 +13,8 @@ Link to the code
     checkpoint are compared;
   * oracle (independent of the model): at the virtual deadline every table of every live node is empty and every
     exit socket ever created has closed its transports; a create is never accepted at the join limit; a relay route
-    never forwards more relay_early cells than max_relay_early - 1; no destroy/cell is sent for a vanished entry.
+    never forwards more relay_early cells than the configured max_relay_early; no cell is emitted by send_cell for an id
+    the node no longer holds; a torn-down circuit's entries are gone at its deadline also while other circuits live.
 """
 from __future__ import annotations
 
@@ -96,7 +97,6 @@ class World:
         self.exit_socks = {}      # label -> list of TunnelExitSocket objects ever installed
         self.flag_fwd = {}        # id(route) -> flagged cells forwarded
         self.oracle = []          # (signature, what)
-        self.tampered = set()
         self.sendkind = {}
         self.settings_patch = settings_patch or {}
         self.stats = {}
@@ -105,6 +105,8 @@ class World:
         self.keylabel = {}
         self.addrlabel = {}
         self.torn_at = None
+        self.creates = []         # every create that went over the wire (for late duplicates)
+        self.parent = {}          # circuit id -> the id it was extended from (lineage, over all nodes)
         self.transports = []      # (owner exit socket, transport) of every datagram endpoint the loop created
 
     # ---- time --------------------------------------------------------------------------------------
@@ -196,7 +198,7 @@ class World:
             rec = log({"k": "cell", "id": cell.circuit_id, "early": bool(cell.relay_early), "plain": bool(cell.plaintext),
                        "ok": False, "body": ["junk"], "relay": cell.circuit_id in ce.relays})
             if rec["relay"]:
-                rec["ok"] = data not in world.tampered
+                rec["ok"] = True     # set to False by crypto_tap when the real AEAD rejects the cell
             prev = world.ctx[lab]
             world.ctx[lab] = rec
             try:
@@ -317,6 +319,7 @@ class World:
         def add(cache):
             r = orig_add(cache)
             if r is not None and isinstance(cache, CreateRequestCache):
+                world.parent[cache.to_circuit_id] = cache.from_circuit_id
                 for rec in reversed(world.pending[lab]):
                     if rec["k"] == "cell" and rec["body"][0] == "extend" and rec["id"] == cache.from_circuit_id \
                             and rec["body"][1] == 70000:
@@ -370,10 +373,10 @@ class World:
                         world.flag_fwd[k] = world.flag_fwd.get(k, 0) + 1
                         world.keep = getattr(world, "keep", [])
                         world.keep.append(route)
-                        if 1 + world.flag_fwd[k] > ce.max_relay_early:
+                        if world.flag_fwd[k] > ce.max_relay_early:
                             world.oracle.append(("relay_cell:relay-early-budget",
                                                  f"node {lab} forwarded {world.flag_fwd[k]} relay_early cells over the "
-                                                 f"route of circuit {cid} (budget {ce.max_relay_early} incl. the extend)"))
+                                                 f"route of circuit {cid} (configured number {ce.max_relay_early})"))
                 else:
                     world.outs[lab]["P"].append(cid)
         ce.relay_cell = relay_cell
@@ -382,24 +385,25 @@ class World:
 
         def send_cell(target, cell):
             kind = cell.message[0] if cell.message else -1
-            world.sendkind[lab] = (kind, None)
+            emitted = {"sent": False}
+            world.sendkind[lab] = (kind, emitted)
             if kind in (3, 5, 7):
                 world.outs[lab]["S"].append((kind, cell.circuit_id))
             if kind == 6:
                 c0 = ce.circuits.get(cell.circuit_id)
                 if c0 is not None and c0._closing:
-                    world.oracle.append(("do_ping:ping-for-closing-circuit",
-                                         f"node {lab} pings circuit {cell.circuit_id} although it is closing: an "
-                                         f"abandoned circuit keeps refreshing every hop during its removal delay"))
+                    # not a violation by itself (reclamation only shifts by remove_tunnel_delay): compared with the
+                    # model's do_ping rule in the `G` column
+                    world.outs[lab]["G"] = world.outs[lab].get("G", 0) + 1
             known = cell.circuit_id in ce.circuits or cell.circuit_id in ce.relays or cell.circuit_id in ce.exit_sockets
-            if not known and kind not in (CreatePayload.msg_id,):
-                world.oracle.append(("send_cell:cell-for-vanished-entry",
-                                     f"node {lab} emits a cell (msg {kind}) for circuit {cell.circuit_id} which is in "
-                                     f"none of its tables"))
             try:
                 return orig_sc(target, cell)
             finally:
                 world.sendkind[lab] = None
+                if emitted["sent"] and not known and kind not in (CreatePayload.msg_id,):
+                    world.oracle.append(("send_cell:cell-for-vanished-entry",
+                                         f"node {lab} emits a cell (msg {kind}) for circuit {cell.circuit_id} which is "
+                                         f"in none of its tables"))
         ce.send_cell = send_cell
 
         orig_sj = ov.should_join_circuit
@@ -441,10 +445,14 @@ class World:
                         kind = "relayed"
                         sk[1]["sent"] = True
                     elif sk is not None:
+                        if sk[1] is not None:
+                            sk[1]["sent"] = True
                         kind = {1: "data", 2: "create", 3: "created", 4: "extend", 5: "extended", 6: "ping",
                                 7: "pong"}.get(sk[0], "cell")
                     else:
                         kind = "cell"
+            if kind == "create":
+                world.creates.append((lab, addr, packet, orig_send))
             if lab in world.dead:
                 world.count("net:dead-drop")
                 return None
@@ -520,7 +528,10 @@ class World:
         ov = self.ov(lab)
         ov.candidates.clear()
         ov.settings.max_circuits = 1
-        ov.build_tunnels(1)
+        try:
+            ov.build_tunnels(1)
+        except Exception as e:
+            self.count("wanting_node:build_tunnels_raised:" + type(e).__name__)
         if ov.circuits:
             raise InfraError("a node without candidates built a circuit")
         self.count("wanting_node")
@@ -558,6 +569,26 @@ class World:
             return
         obj.bytes_up += amount
         self.log[lab]({"k": "traffic", "tbl": tbl, "id": cid, "amount": amount})
+
+    def root(self, cid):
+        seen = 0
+        while cid in self.parent and seen < 16:
+            cid = self.parent[cid]
+            seen += 1
+        return cid
+
+    def leftovers_of(self, root_cid):
+        """entries on live nodes whose circuit id descends from `root_cid`"""
+        bad = []
+        for lab in range(1, self.n + 1):
+            if lab in self.dead:
+                continue
+            ov = self.ov(lab)
+            for name, tbl in (("circuits", ov.circuits), ("relays", ov.relay_from_to), ("exits", ov.exit_sockets)):
+                ids = sorted(i for i in tbl if self.root(i) == root_cid)
+                if ids:
+                    bad.append((lab, name, ids))
+        return bad
 
     # ---- path discovery ---------------------------------------------------------------------------
     def path(self, olab, cid):
@@ -613,7 +644,7 @@ class World:
         return (f"C[{','.join(cs)}] R[{','.join(rs)}] X[{','.join(xs)}] L{leaked} "
                 f"D[{','.join(f'{p}:{i}' for p, i in sorted(o['D']))}] F[{dup(o['F'])}] P[{dup(o['P'])}] "
                 f"J[{','.join(str(x) for x in sorted(o['J']))}] "
-                f"S[{','.join(f'{k}:{i}*{n}' for (k, i), n in sorted(self.dupd(o['S']).items()))}]")
+                f"S[{','.join(f'{k}:{i}*{n}' for (k, i), n in sorted(self.dupd(o['S']).items()))}] G{o.get('G', 0)}")
 
     @staticmethod
     def dupd(l):
@@ -693,6 +724,10 @@ class World:
                 bad.append((lab, sorted(ov.circuits), sorted(ov.relay_from_to), sorted(ov.exit_sockets)))
             for es, t in self.open_transports(lab):
                 bad.append((lab, "open exit socket", getattr(es, "circuit_id", None), str(t.get_extra_info("sockname"))))
+        owners = [getattr(es, "overlay", None) for es, _ in self.transports]
+        for (es, t), ov in zip(self.transports, owners):
+            if not t.is_closing() and not any(ov is n.overlay for n in self.nodes):
+                bad.append((0, "open exit socket", "owner unknown", str(t.get_extra_info("sockname"))))
         return bad
 
     async def shutdown(self):
@@ -734,7 +769,9 @@ def make_spec(rng, idx, forced=None):
         "hops": rng.choice([1, 2, 2, 3, 3]),
         "phase": rng.choice(PHASES),
         "teardown": rng.choice(TEARDOWNS),
-        "nodes": rng.choice([5, 5, 6]),
+        "nodes": rng.choice([3, 4, 5, 5, 6]),
+        # other circuits that stay alive (and pinged) while the main one is torn down: [originator label, hops]
+        "companions": [[rng.choice([1, 1, 2, 3]), rng.choice([1, 2, 2])] for _ in range(rng.choice([0, 0, 1, 2, 3]))],
         "when": rng.randrange(2, 30) * TPS + 4 * rng.randrange(0, 16),
         "faults": [],
         "chatty_outside": rng.random() < 0.5,
@@ -778,7 +815,7 @@ def spec_key(spec):
     return repr((spec["hops"], spec["phase"], spec["teardown"], spec["nodes"], spec["when"],
                  [(f["action"], f["kinds"], f["nth"], f["delay"], f["src"], f["dst"]) for f in spec["faults"]],
                  spec["chatty_outside"], spec["traffic_limit"], spec.get("payload"),
-                 spec.get("postmortem"), spec.get("wanting")))
+                 spec.get("postmortem"), spec.get("wanting"), spec.get("companions")))
 
 
 async def run_scenario(world: World, spec, deadline_extra=0):  # noqa: C901, PLR0912, PLR0915
@@ -802,6 +839,21 @@ async def run_scenario(world: World, spec, deadline_extra=0):  # noqa: C901, PLR
     if circuit is None:
         raise InfraError("create_circuit returned None: no candidates in the scenario")
     cid = circuit.circuit_id
+    t_start = world.ticks()
+    companions = []
+    for lab, hops in spec.get("companions", []):
+        if lab > world.n:
+            continue
+        await asyncio.sleep(8 / TPS)
+        try:
+            c2 = world.create_circuit(lab, hops)
+        except Exception:
+            c2 = None
+        world.count("companion:" + ("created" if c2 is not None else "not_created"))
+        if c2 is not None:
+            companions.append((lab, c2))
+    stage = "main"
+    t_drop = None
     t_start = world.ticks()
     t_tear = t_start + spec["when"]
     max_delay = max([f["delay"] for f in spec["faults"]] + [0])
@@ -828,6 +880,8 @@ async def run_scenario(world: World, spec, deadline_extra=0):  # noqa: C901, PLR
             events.append(end)
         if t_final is not None:
             events.append(t_final)
+        if t_drop is not None:
+            events.append(t_drop)
         events.extend(post)
         nxt = min(e for e in events if e >= now) if any(e >= now for e in events) else now
         if nxt > now:
@@ -837,7 +891,26 @@ async def run_scenario(world: World, spec, deadline_extra=0):  # noqa: C901, PLR
             world.checkpoint()
             next_cp += TPS
             if end is not None and now >= end:
+                if stage == "main":
+                    # the main circuit's entries (every id descending from it) must be gone everywhere although the
+                    # companion circuits are alive and keep their neighbours busy
+                    info["main_left"] = world.leftovers_of(cid)
+                    alive = [(lab, c2) for lab, c2 in companions
+                             if lab not in world.dead and c2.circuit_id in world.ov(lab).circuits]
+                    world.count("companions_alive_at_main_deadline", len(alive))
+                    if not alive:
+                        break
+                    stage = "final"
+                    t_drop = odd(now + 4)
+                    end = next_cp + int(3 * B + 4) * TPS + max_delay - max_delay % TPS
+                    continue
                 break
+            continue
+        if t_drop is not None and now == t_drop:
+            t_drop = None
+            for lab, c2 in companions:
+                if lab not in world.dead and c2.circuit_id in world.ov(lab).circuits:
+                    world.remove_circuit(lab, c2.circuit_id, False)
             continue
         if spec["phase"] == "transfer" and not torn and now == next_user:
             pl = spec.get("payload", "bt")
@@ -1078,7 +1151,18 @@ async def run_age_limit(world: World, spec):
     step = 64 * TPS          # sparse checkpoints: one per 64 virtual seconds …
     dense_from = t0 + int((meta["max_time"] - 10) * TPS)   # … and one per second around the age limit
     alive_at_limit = None
+    await asyncio.sleep(64 / TPS)
+    world.user_data(1, circuit)            # the exit socket gets its outside transports
+    t_dup = odd(t0 + int((meta["unstable_timeout"] + 10) * TPS))
     while True:
+        if t_dup is not None and cp > t_dup:
+            # late duplicates: every create of this circuit arrives once more, after the created-cache forgot it, under
+            # an id that is in use (a socket replaced in the table would leak its transports)
+            await asyncio.sleep((t_dup - world.ticks()) / TPS)
+            for lab, addr, packet, raw in list(world.creates):
+                world.count("late_duplicate_create")
+                raw(addr, packet)
+            t_dup = None
         await asyncio.sleep((cp - world.ticks()) / TPS)
         world.checkpoint()
         now = world.ticks()
@@ -1196,6 +1280,10 @@ def run_case(ctx: Ctx, spec, use_model: bool, kind="scenario"):
     replay = {"kind": kind, "spec": spec, "seed": seed}
     for sig, what in world.oracle[:3]:
         ctx.oracle_fail(sig, what, replay)
+    if info.get("main_left"):
+        ctx.oracle_fail("deadline:entries-left",
+                        f"{kind} {spec}: at the deadline of the torn-down circuit its entries are still held while other "
+                        f"circuits are alive: {info['main_left'][:4]}", replay)
     if info["final"]:
         kinds = set()
         for b in info["final"]:
@@ -1309,6 +1397,17 @@ def run_all(ctx: Ctx, n_random, use_model, with_exhaustive):
             run_case(ctx, make_spec(ctx.rng, idx, {"hops": hops, "teardown": td, "phase": "transfer", "faults": flt,
                                                    "traffic_limit": False, "payload": pl, "postmortem": [16],
                                                    "wanting": "none"}), use_model)
+            idx += 1
+        # small worlds (a path cannot always be completed: send_extend runs out of candidates) and worlds in which
+        # other circuits stay alive over the same neighbours while the main one is abandoned / loses its destroy
+        for nodes, hops, td, comp in ((3, 3, "none", []), (3, 3, "o_abandon", [[1, 2]]), (4, 3, "none", [[2, 2]]),
+                                      (3, 2, "o_abandon", [[1, 2], [1, 2], [1, 2]]), (3, 2, "o_dies", [[2, 2], [3, 2]]),
+                                      (4, 2, "exit_dies", [[1, 2], [1, 2], [2, 2]]), (4, 3, "o_abandon", [[1, 3], [1, 2], [3, 2]]),
+                                      (3, 1, "o_abandon", [[1, 1], [1, 2]])):
+            run_case(ctx, make_spec(ctx.rng, idx, {"nodes": nodes, "hops": hops, "teardown": td, "companions": comp,
+                                                   "phase": "ready" if td != "none" else "halfbuilt", "faults": [],
+                                                   "traffic_limit": False, "wanting": "none", "when": 10 * TPS,
+                                                   "postmortem": []}), use_model)
             idx += 1
         run_case(ctx, {"nodes": 4, "hops": 2}, use_model, kind="age")
         for hops in (1, 2, 3):
